@@ -20,6 +20,7 @@ def gen_models(ctx, n, pid=None):
     if pid == "C11":
         ms += wild_cycles(rng, max(40, n // 6))
         ms += wild_cycles_below_subtraction(rng, max(40, n // 6))
+        ms += interlocking_cycles(rng, max(60, n // 5), wild=True)
     if pid in ("C11", "C06"):
         ms += wild_fans(rng, max(30, n // 8))
     if pid in ("C04", "C05", "C06"):
@@ -99,7 +100,7 @@ def wide_models(rng, n):
     return out
 
 
-def interlocking_cycles(rng, n):
+def interlocking_cycles(rng, n, wild=False):
     """one type whose relations refer to each other through userset restrictions in all directions: several tuple cycles
     that share nodes and nest (a node whose first edge closes one cycle and whose later edge reports that cycle AND another
     one, in that order).  Union-only and well-founded (one relation at least takes users directly), so every start order
@@ -107,14 +108,18 @@ def interlocking_cycles(rng, n):
     out = []
     for _ in range(n):
         k = rng.choice([3, 3, 4, 4, 5])
-        rels = ["r%d" % i for i in range(k)]
+        # relation names of which one is a prefix of another, a type name that starts with the letters of the
+        # placeholder prefix "R#": nothing may depend on how these labels are spelled
+        rels = rng.choice([["r%d" % i for i in range(k)], ["member", "member_all", "m", "mx", "member_a"][:k], ["outer", "inner", "p", "q", "pq"][:k]])
+        tname = rng.choice(["doc", "doc", "Repo", "R", "group"])
         rl, ml = [], []
         anchored = rng.sample(rels, rng.choice([1, 1, 2]))
         for r in rels:
             others = [x for x in rels if x != r or rng.random() < 0.15]
-            refs = [[S("doc"), [1, S(x)], []] for x in rng.sample(others, min(len(others), rng.choice([1, 2, 2, 3])))]
+            refs = [[S(tname), [1, S(x)], []] for x in rng.sample(others, min(len(others), rng.choice([1, 2, 2, 3])))]
             if r in anchored:
-                refs.insert(rng.randrange(len(refs) + 1), [S("user"), [0], []])
+                # the terminal type: a plain type, or (wild) public, at any position among the restrictions
+                refs.insert(rng.randrange(len(refs) + 1), [S("user"), [2] if wild and rng.random() < 0.7 else [0], []])
             rl.append([S(r), [1, 1]])
             ml.append([S(r), [refs, [], []]])
         # relations outside that enter the tangle (the search may start there)
@@ -123,7 +128,7 @@ def interlocking_cycles(rng, n):
             ml.append([S("out%d" % j), [[], [], []]])
         order = list(zip(rl, ml))
         rng.shuffle(order)
-        types = [[S("user"), [], []], [S("doc"), [x[0] for x in order], [[[x[1] for x in order], [], []]]]]
+        types = [[S("user"), [], []], [S(tname), [x[0] for x in order], [[[x[1] for x in order], [], []]]]]
         out.append([S("1.1"), types, []])
     return out
 
@@ -579,6 +584,10 @@ def run_for(ctx, pid):
         # checks exhausted memory here)
         res = gc.run_graph(ctx, models, n_orders=8 if ctx.tier == "quick" else 12, repeat=40 if ctx.tier == "quick" else 150,
                            order_repeat=4 if ctx.tier == "quick" else 6)
+    elif pid == "C11":
+        # wildcard lists of nested tuple cycles depend on inner map iteration orders as well: more start orders, each repeated
+        res = gc.run_graph(ctx, models, n_orders=6 if ctx.tier == "quick" else 8, repeat=3 if ctx.tier == "quick" else 10,
+                           order_repeat=3 if ctx.tier == "quick" else 4)
     else:
         res = gc.run_graph(ctx, models, n_orders=4 if ctx.tier == "quick" else 8, repeat=3 if ctx.tier == "quick" else 10)
     if pid == "C06":
